@@ -32,6 +32,18 @@ func (i *interpreter) timeNow() value {
 }
 
 func registerTimeStubs() {
+	globalModels["time.utcLoc"] = func(i *interpreter, g *ssa.Global) value {
+		st := zero(mustDeref(g.Type())).(structure)
+		st[0] = "UTC"
+		return st
+	}
+	globalModels["time.UTC"] = func(i *interpreter, g *ssa.Global) value {
+		return i.global(g.Pkg.Var("utcLoc"))
+	}
+	globalModels["time.Local"] = func(i *interpreter, g *ssa.Global) value {
+		// the local zone is modelled as UTC (no zone database is read)
+		return i.global(g.Pkg.Var("utcLoc"))
+	}
 	specials["time.Now"] = func(i *interpreter, fr *frame, fn *ssa.Function, args []value) value {
 		return i.timeNow()
 	}
@@ -67,6 +79,16 @@ func registerTimeStubs() {
 			return tuple{int64(0), i.opaqueError("time: invalid duration")}
 		}
 		panic("time.ParseDuration: bad argument")
+	}
+	for _, n := range []string{"Seconds", "Minutes", "Hours"} {
+		name := "(time.Duration)." + n
+		div := map[string]float64{"Seconds": 1e9, "Minutes": 60e9, "Hours": 3600e9}[n]
+		specials[name] = func(i *interpreter, fr *frame, fn *ssa.Function, args []value) value {
+			if d, ok := args[0].(int64); ok {
+				return float64(d) / div
+			}
+			return symf{args[0].(sym).e}
+		}
 	}
 	specials["(time.Duration).String"] = func(i *interpreter, fr *frame, fn *ssa.Function, args []value) value {
 		if d, ok := args[0].(int64); ok {
